@@ -10,6 +10,71 @@ func init() {
 	vHarnesses["H_C16_truncate"] = H_C16_truncate
 	vHarnesses["H_C16_mismatch"] = H_C16_mismatch
 	vHarnesses["H_C16_truncate_hybrid"] = H_C16_truncate_hybrid
+	vHarnesses["H_C16_segment"] = H_C16_segment
+}
+
+// a segment with a truncated, empty or missing component file contributes nothing to search results:
+// one flushed segment (two documents), one of its gzip files cut to any strict prefix / emptied / deleted,
+// the directory reopened with fresh templates and searched by vector, text and metadata
+func H_C16_segment() {
+	vStoreTemplates = []int{0, 3}[vChoose("templates", 2)]
+	dir := vTempDir()
+	s, err := OpenPersistentHybridIndex(vFreshStoreCfg(dir, false))
+	vAssert(err == nil, "open-ok")
+	for _, d := range vStoreDocs[:2] {
+		vAssert(s.AddWithID(d.id, []float32{d.vec}, d.text, map[string]interface{}{"c": d.c}) == nil, "add-ok")
+	}
+	vAssert(s.Flush() == nil, "flush-ok")
+	vAssert(s.Close() == nil, "close-ok")
+	kinds := []string{"hybrid", "vector", "text", "metadata"}
+	if vStoreTemplates == 3 {
+		kinds = kinds[:2]
+	}
+	kind := kinds[vChoose("file", len(kinds))]
+	vTag("file=" + kind)
+	path := dir + "/" + vSegName(kind, 1)
+	size := vFSSize(path)
+	vAssert(size > 0, "component-file-written")
+	check := func(what string) {
+		s2, err2 := OpenPersistentHybridIndex(vFreshStoreCfg(dir, false))
+		vAssert(err2 == nil, "open-with-a-damaged-segment-ok")
+		if err2 != nil {
+			return
+		}
+		r, e := s2.NewSearch().WithVector([]float32{1}).WithK(10).Execute()
+		vAssert(e != nil || len(r) == 0, what+"-segment-contributes-nothing-to-vector-search")
+		if s2.config.TextIndexTemplate != nil {
+			rt, e2 := s2.NewSearch().WithText("fox").WithK(10).Execute()
+			vAssert(e2 != nil || len(rt) == 0, what+"-segment-contributes-nothing-to-text-search")
+		}
+		if s2.config.MetadataIndexTemplate != nil {
+			rm, e3 := s2.NewSearch().WithMetadata(Eq("c", "x")).WithK(10).Execute()
+			vAssert(e3 != nil || len(rm) == 0, what+"-segment-contributes-nothing-to-metadata-search")
+		}
+		vAssert(s2.Close() == nil, "close-ok")
+	}
+	if vChoose("missing", 2) == 1 {
+		vFSRemove(path)
+		check("missing")
+		vCover("missing")
+		return
+	}
+	if !vSymbolic() {
+		// native replay: the real gzip files have other lengths than the framing model's: every strict prefix
+		orig := vFSReadAll(path)
+		for p := 0; p < len(orig); p++ {
+			vFSWriteAll(path, orig[:p])
+			check("truncated")
+		}
+		return
+	}
+	p := vChoose("prefix", size) // 0 = empty file
+	vFSTruncate(path, p)
+	if p >= size-5 {
+		vTag("cut-in-trailer")
+	}
+	check("truncated")
+	vCover("truncated")
 }
 
 const (
